@@ -271,6 +271,11 @@ pub fn main() {
                 let r = mcx::catch(|| (e.text_record)()).unwrap_or_else(|p| Err(format!("PANIC {p}")));
                 println!("{}", json!({"type": e.name, "text": t, "macro": m, "record": r.err()}));
             }
+            for (name, t, m) in crate::table::service_entries() {
+                let t = mcx::catch(|| t().to_string()).unwrap_or_else(|p| format!("PANIC {p}"));
+                let m = mcx::catch(|| m().to_string()).unwrap_or_else(|p| format!("PANIC {p}"));
+                println!("{}", json!({"type": name, "service": true, "text": t, "macro": m}));
+            }
             for (name, f) in crate::table::twin_entries() {
                 let t = mcx::catch(|| f().to_string()).unwrap_or_else(|p| format!("PANIC {p}"));
                 println!("{}", json!({"type": name, "twin": t}));
